@@ -105,6 +105,16 @@ def run(rep, tier, seed):
                 w2 = utils.base_and_dirs2utpm(x2, V2)
                 if not numpy.array_equal(w2.data, w.data):
                     rep.violation("base_and_dirs2utpm o utpm2base_and_dirs " + sig, {})
+                # the converted data is a value of its own: using the source afterwards loses nothing
+                keep = w.data.copy()
+                w *= 3.0
+                w += 1.0
+                if not numpy.array_equal(utils.base_and_dirs2utpm(x2, V2).data, keep):
+                    rep.violation("utpm2base_and_dirs: the base point / directions change when the polynomial is used afterwards " + sig, {})
+                w3 = utils.base_and_dirs2utpm(x2, V2)
+                x2 *= 0.0; V2 *= 0.0
+                if not numpy.array_equal(w3.data, keep):
+                    rep.violation("base_and_dirs2utpm: the polynomial changes when the base point / directions are used afterwards " + sig, {})
             except Exception as ex:
                 rep.violation("base/dirs conversion raises %s %s" % (type(ex).__name__, sig), {"what": repr(ex)[-300:]})
             # nested containers of shape es: as_utpm with entries of element shape (2,), ndarray2utpm with 0-d entries
